@@ -272,6 +272,55 @@ PROPS["C18"]["level_note"] = PROPS["C18"]["level_note"] + (
     "analysis follows exactly (no multi-store loads) must warn. One open finding is recorded (known_findings.txt, class K1): a constant produced by an "
     "IntAdd/IntSub/IntMult that overflows the signed range is lost by design of Interval::add/sub/signed_mul (Top on signed overflow), so the warning is missing.")
 
+# ---- C25 (unit logcollect, round 3) ------------------------------------------------------------------------------
+TWINS["logcollect"] = [("collect_and_deduplicate", "c25.collect"), ("LogThread::collect", "c25.collect"), ("spawn", "c25.threads"),
+                       ("get_msg_sender", "c25.threads"), ("lc_collect_standard", "c25.collect")]
+PROPS["C25"] = {
+    "units": ["logcollect"],
+    "level_text": (
+        "LogThread::{collect_and_deduplicate, spawn, collect, get_msg_sender} and Drop::drop of utils/log.rs (types Tid, LogLevel, LogMessage, CweWarning, "
+        "LogThreadMsg, LogThread) are extracted verbatim on each run and verified by Verus against a ghost delivery history of the channel, for EVERY history of "
+        "any length: with h = the history up to the first Terminate (or all of it on disconnect), the collector returns the addressed logs of h deduplicated by "
+        "location.address (last one wins, one per address, ascending) followed by exactly the address-less logs of h in their order; the warnings returned are "
+        "exactly the last warning of h per first address; every message of h is accounted for; the loop terminates (measure: history length minus cursor). spawn "
+        "ties the thread's result to the collector's postcondition on the SAME channel its sender feeds; collect returns exactly the thread's result after having "
+        "sent Terminate into that channel; a verified client composes spawn(collect_and_deduplicate) and collect(). The part of the property that quantifies over "
+        "thread interleavings (a send that completed before collect() precedes collect's Terminate in the delivery order; per-sender FIFO; no loss) is the "
+        "semantics of crossbeam-channel: assumed, not proved; the bounded twin c25.threads exercises it with real threads."),
+    "level_note": (
+        "Decided: the code against the delivery order of the channel (sequential content of the property: send order of address-less logs, last warning per "
+        "address, nothing lost by the collector). NOT decided: the interleaving quantifier itself (channel linearisation, per-sender order, no loss/duplication, no "
+        "foreign Terminate) -- trusted crossbeam semantics; blocking/liveness of recv and join beyond a finite history. The panic on a warning without address is "
+        "divergence (R5): the collector thread panics, collect() panics in unwrap; the contract exports 'no such warning in h' for returning runs. 'Is returned' is "
+        "read as 'accounted for' (deduplication drops earlier same-key messages, as the property's last clause demands). Trusted: shim/logcollect.rs (crossbeam "
+        "Receiver::recv over a ghost history with ghost cursor, Sender::send/clone, unbounded; std::thread spawn/JoinHandle::join with an uninterpreted result "
+        "predicate), six R9 substitutions (recv with ghost cursor; slice-pattern match -> len()==0 / &v[0]; values().cloned().chain(v).collect() and "
+        "into_values().collect() -> values in ascending key order; thread::spawn(move || f(a)); send + ghost trace and join().unwrap() with the obligation "
+        "'Terminate sent before'), hypothesis vstd obeys_cmp::<String>(), derive(Clone) of LogMessage yields an equal value. The composition clients are @raw text, "
+        "verified and hand-probed. Renaming the collector's three state variables makes the unit undecided (invariants name them), never an alarm."),
+    "design_ref": "DESIGN.md section 13 (C25)",
+    "default_twins": ["c25.collect", "c25.threads"],
+    "sweep_twins": ["c25.collect", "c25.threads"],
+    "not_covered": [
+        "channel semantics (linearisation of sends vs. collect's Terminate, per-sender order, loss or duplication, foreign Terminate): trusted",
+        "blocking / liveness of recv and join beyond the finite-history model",
+        "LogThread::create_disconnected_sender, print_all_messages, add_debug_log_statistics, the Display impls and the builder methods",
+    ],
+    "assumptions": [
+        "shim/logcollect.rs contracts of crossbeam-channel (Receiver::recv over a ghost history with ghost cursor, Sender::send/clone, unbounded) and std::thread (JoinHandle predicate, join, spawn)",
+        "R9: recv -> verif_recv(&mut ghost cursor); slice-pattern match -> len()==0 / &v[0]; values().cloned().chain(v).collect() and into_values().collect() -> values in ascending key order (then the vector)",
+        "R9: thread::spawn(move || f(a)) -> join yields f(a); send -> send + ghost trace; .join().unwrap() -> join-unwrap with the 'Terminate sent before' obligation (Err = panic = divergence)",
+        "HYPOTHESIS vstd::laws_cmp::obeys_cmp::<String>()",
+        "derive(Clone) of LogMessage yields an equal value; R5 panic = divergence; fields of Tid and LogThread made pub",
+        "64-bit target (usize = u64)",
+    ],
+}
+
+TWINS["cwe560"] = [("is_chmod_style_arg", "c18.umask")]
+TWINS["cwe467"] = [("check_for_pointer_sized_arg", "c18.sizeof")]
+PROPS["C18"]["default_twins"] = ["c18.umask", "c18.sizeof"]
+PROPS["C18"]["sweep_twins"] = ["c18.umask", "c18.sizeof"]
+
 
 def twin_for(unit, label):
     for frag, twin in TWINS.get(unit, []):
